@@ -83,7 +83,8 @@ fn relocs_at(align16: usize, hx: &str) -> String {
 			if ty != 0 { flat_it.push((b.rva_of(word), ty)); }
 		}
 		n += 1;
-		if n > data.len() + 2 { return "diverge".to_string(); }
+		// C03: every block consumes at least its 8-byte header, so at most len/8 blocks (the smallest record size)
+		if n > data.len() / 8 { return format!("diverge relocs: {} blocks from {} bytes, only {} block headers fit", n, data.len(), data.len() / 8); }
 	}
 	let mut flat_fold = Vec::new();
 	r.for_each(|rva, ty| flat_fold.push((rva, ty)));
